@@ -9,10 +9,13 @@ package main
 // between the evaluation of the bound and the access). Anything else is left as it is, and the rules answer as before.
 
 import (
+	"fmt"
 	"go/ast"
 	"go/constant"
 	"go/token"
 	"go/types"
+	"os"
+	"sort"
 	"strings"
 
 	"golang.org/x/tools/go/ssa"
@@ -225,7 +228,17 @@ func (c *Ctx) normByteStrings(t Term) Term {
 					}
 				}
 			}
+		case TSlice:
+			// bytes[0:] (the part appended after an empty start) is the bytes
+			if _, ok := asBytes(x.X); ok && x.Hi == nil && x.Max == nil {
+				if k, isK := constInt(x.Lo); x.Lo == nil || (isK && k == 0) {
+					return x.X
+				}
+			}
 		case TBuiltin:
+			if x.Name == "len" && len(x.Args) == 1 && emptyBytes(x.Args[0]) {
+				return TConst{constant.MakeInt64(0)}
+			}
 			if x.Name == "append" && len(x.Args) == 2 {
 				if s0, ok := asBytes(x.Args[0]); ok {
 					if _, isStr := isConstStringTerm(x.Args[1]); isStr {
@@ -723,6 +736,12 @@ func (c *Ctx) termType(t Term) types.Type {
 		if a, ok := x.X.(TAssert); ok && x.K == 0 {
 			return a.To
 		}
+		if ix, ok := x.X.(TIndex); ok {
+			if x.K == 0 {
+				return c.termType(ix) // v, ok := m[k]
+			}
+			return types.Typ[types.Bool]
+		}
 		if call, ok := x.X.(TCall); ok && call.Fun != nil {
 			if sig, ok := call.Fun.Type().(*types.Signature); ok && x.K < sig.Results().Len() && sig.TypeParams() == nil {
 				return sig.Results().At(x.K).Type()
@@ -760,6 +779,24 @@ func (c *Ctx) termType(t Term) types.Type {
 	case TBuiltin:
 		if x.Name == "make" {
 			return x.Type
+		}
+		if x.Name == "len" || x.Name == "cap" {
+			return types.Typ[types.Int]
+		}
+	case TIndex:
+		if bt := c.termType(x.X); bt != nil {
+			switch u := bt.Underlying().(type) {
+			case *types.Basic:
+				if u.Info()&types.IsString != 0 {
+					return types.Typ[types.Uint8]
+				}
+			case *types.Slice:
+				return u.Elem()
+			case *types.Array:
+				return u.Elem()
+			case *types.Map:
+				return u.Elem()
+			}
 		}
 	}
 	return nil
@@ -1843,7 +1880,7 @@ func (v *sxView) flagNorm(paths []*Path) []*Path {
 		return ps
 	}
 	if len(drop) == 0 {
-		return v.emptyGuardNorm(fold(cur))
+		return v.unrolledGuardNorm(v.emptyGuardNorm(fold(cur)))
 	}
 	var out []*Path
 	for i, p := range cur {
@@ -1855,7 +1892,7 @@ func (v *sxView) flagNorm(paths []*Path) []*Path {
 		}
 		out = append(out, p)
 	}
-	return v.emptyGuardNorm(fold(append(append(out, added...), last...)))
+	return v.unrolledGuardNorm(v.emptyGuardNorm(fold(append(append(out, added...), last...))))
 }
 
 // emptinessOf: t is an emptiness test of some collection X (len(X) == 0, 0 == len(X), len(X) < 1, len(X) <= 0 and their negations
@@ -3161,31 +3198,129 @@ func (v *sxView) freshContainer(t Term) *Cont {
 func (v *sxView) primitiveWriteNorm(paths []*Path) []*Path {
 	// the conversion must be part of the write itself (one conversion per write, as in Add/Set): a value converted once and
 	// written several times is one shared element, which no sequence of Add calls produces
+	var loops []*LoopRec
+	var pathConds []Cond // the decisions of the path (and the enclosing paths) up to the step being looked at
+	ctors, ident := v.c.parseValTable()
+	var nilCtor *types.Func
+	for _, ct := range ctors {
+		if ct.typ == nil {
+			nilCtor = ct.fn
+		}
+	}
+	// nilTest: cd decides `e == nil`; returns e and whether the path found it nil
+	nilTest := func(cd Cond) (Term, bool) {
+		b, ok := cd.T.(TBin)
+		if !ok || (b.Op != token.EQL && b.Op != token.NEQ) {
+			return nil, false
+		}
+		e := b.X
+		if _, isN := b.Y.(TNil); !isN {
+			if _, isN := b.X.(TNil); !isN {
+				return nil, false
+			}
+			e = b.Y
+		}
+		return e, cd.Truth == (b.Op == token.EQL)
+	}
 	isPV := func(t Term, at ast.Node) (Term, bool) {
+		// a value of a static type that parseVal passes through unchanged (a container interface) is its own conversion
+		nonNil := false // the value of a successful assertion to an interface type is not nil (a nil Object would be converted to the nil wrapper)
+		switch u := t.(type) {
+		case TAssert:
+			nonNil = true
+		case TProj:
+			_, nonNil = u.X.(TAssert)
+		}
+		// … so is a value the path compared with nil and found different
+		for _, cd := range pathConds {
+			if e, isNil := nilTest(cd); e != nil && !isNil && sameTerm(eraseEpochs(e), eraseEpochs(t)) {
+				nonNil = true
+			}
+		}
+		// newNil() on a path that found a value of such a type to be nil: the conversion of that (nil) value
+		if call, isCall := t.(TCall); isCall && call.Fun != nil && call.Fun == nilCtor && len(call.Args) == 0 {
+			var which Term
+			n := 0
+			for _, cd := range pathConds {
+				if e, isNil := nilTest(cd); e != nil && isNil {
+					if tt := v.c.termType(e); tt != nil {
+						for _, it := range ident {
+							if types.Identical(tt, it) {
+								which = e
+								n++
+							}
+						}
+					}
+				}
+			}
+			if n == 1 {
+				return which, true
+			}
+		}
+		if tt := v.c.termType(t); tt != nil && nonNil {
+			for _, it := range ident {
+				if types.Identical(tt, it) {
+					return t, true
+				}
+			}
+		}
 		pv, ok := t.(TCall)
+		if ok && pv.Fun != nil && pv.Recv == nil && len(pv.Args) == 1 && pv.Fun.Pkg() == v.c.Types && pv.Fun.Name() != "parseVal" {
+			// newK(e) with e of static type K is what parseVal's arm for K does with e
+			if at := v.c.termType(pv.Args[0]); at != nil {
+				for _, ct := range ctors {
+					if ct.fn == pv.Fun && ct.typ != nil && types.Identical(ct.typ, at) {
+						goto conv
+					}
+				}
+			}
+			return nil, false
+		}
 		if !ok || pv.Fun == nil || pv.Fun.Name() != "parseVal" || pv.Fun.Pkg() != v.c.Types || pv.Recv != nil || len(pv.Args) != 1 {
 			return nil, false
 		}
-		if pv.Site == nil || at == nil || !insideNode(pv.Site, at) {
+	conv:
+		if pv.Site == nil || at == nil {
 			return nil, false
 		}
-		return pv.Args[0], true
+		if insideNode(pv.Site, at) {
+			return pv.Args[0], true
+		}
+		// the write sits in a helper called from a loop body that also holds the conversion (`result.push(parseVal(f(i)))`), or the
+		// converted value is computed from this round's variables: one conversion per round all the same
+		if n := len(loops); n > 0 {
+			l := loops[n-1]
+			if l.Node != nil && insideNode(pv.Site, l.Node) && !insideNode(at, pv.Site) {
+				return pv.Args[0], true
+			}
+			if mentionsLoopVar(pv.Args[0], l.ID) {
+				return pv.Args[0], true
+			}
+		}
+		return nil, false
 	}
 	var rewrite func(p *Path) *Path
 	rewrite = func(p *Path) *Path {
 		var q *Path
+		mark := len(pathConds)
+		defer func() { pathConds = pathConds[:mark] }()
 		for k, s := range p.Steps {
 			ns := s
 			changed := false
+			if s.Kind == "cond" {
+				pathConds = append(pathConds, s.Cond)
+			}
 			switch {
 			case s.Kind == "loop" && s.Loop != nil:
 				var iters []*Path
 				any := false
+				loops = append(loops, s.Loop)
 				for _, ip := range s.Loop.Iter {
 					nip := rewrite(ip)
 					any = any || nip != ip
 					iters = append(iters, nip)
 				}
+				loops = loops[:len(loops)-1]
 				if any {
 					nl := *s.Loop
 					nl.Iter = iters
@@ -3702,6 +3837,596 @@ func assertByConds(paths []*Path) []*Path {
 		q := mapPath(p, f)
 		if changed {
 			out[i] = q
+		}
+	}
+	return out
+}
+
+// ---------------------------------------------------------------- fast paths that spell the loop out
+
+// unrolledGuardNorm (N7): `if len(values) == 2 { …the one pair… ; return }` in front of the loop over all pairs — a fast path for a
+// fixed small size that does by hand what the loop would do. For every size at which the guard sends a call down the fast path (folded
+// 0..9 and a large one; at most 4, none of them large), the general path's loop header is simulated for that size and its rounds are laid
+// out one after the other with the counter's values put in; when the straight-line paths so obtained are, step for step and result for
+// result, the fast paths (locals canonically named, memory stamps erased), the guard decides nothing: the fast paths and the decision are
+// dropped. Anything that does not match leaves the paths as they are.
+func (v *sxView) unrolledGuardNorm(paths []*Path) []*Path {
+	c := v.c
+	for round := 0; round < 3; round++ {
+		changed := false
+	candidates:
+		for fi, pf := range paths {
+			for gi, gs := range pf.Steps {
+				if gs.Kind != "cond" || !intFoldable(gs.Cond.T) {
+					continue
+				}
+				G := gs.Cond
+				// the size the guard talks about
+				var X Term
+				recvCount, sizeOK := false, true
+				collectSubterms(G.T, func(u Term) {
+					switch {
+					case v.isCountOfRecv(u):
+						recvCount = true
+					default:
+						if bl, ok := u.(TBuiltin); ok && bl.Name == "len" && len(bl.Args) == 1 {
+							if v.isRecvSpine(bl.Args[0]) {
+								recvCount = true
+							} else if X == nil {
+								X = bl.Args[0]
+							} else if !sameTerm(eraseEpochs(X), eraseEpochs(bl.Args[0])) {
+								sizeOK = false
+							}
+						}
+					}
+				})
+				if !sizeOK || recvCount == (X != nil) {
+					continue
+				}
+				isSize := func(u Term) bool {
+					if recvCount {
+						if v.isCountOfRecv(u) {
+							return true
+						}
+						bl, ok := u.(TBuiltin)
+						return ok && bl.Name == "len" && len(bl.Args) == 1 && v.isRecvSpine(bl.Args[0])
+					}
+					bl, ok := u.(TBuiltin)
+					return ok && bl.Name == "len" && len(bl.Args) == 1 && sameTerm(eraseEpochs(bl.Args[0]), eraseEpochs(X))
+				}
+				samePrefix := func(p *Path) bool {
+					if len(p.Steps) <= gi {
+						return false
+					}
+					for k := 0; k < gi; k++ {
+						a, b := p.Steps[k], pf.Steps[k]
+						switch {
+						case a.Kind != b.Kind:
+							return false
+						case a.Kind == "cond":
+							if !sameTerm(a.Cond.T, b.Cond.T) || a.Cond.Truth != b.Cond.Truth {
+								return false
+							}
+						default:
+							if a.Node != b.Node {
+								return false
+							}
+						}
+					}
+					s := p.Steps[gi]
+					return s.Kind == "cond" && sameTerm(s.Cond.T, G.T)
+				}
+				var fast, slow []int
+				for i, p := range paths {
+					if !samePrefix(p) {
+						continue
+					}
+					if p.Steps[gi].Cond.Truth == G.Truth {
+						fast = append(fast, i)
+					} else {
+						slow = append(slow, i)
+					}
+				}
+				if len(fast) == 0 || len(slow) == 0 {
+					continue
+				}
+				hasLoop := func(p *Path) int {
+					n, at := 0, -1
+					for k := gi + 1; k < len(p.Steps); k++ {
+						if p.Steps[k].Kind == "loop" {
+							n++
+							at = k
+						}
+					}
+					if n != 1 {
+						return -n - 1
+					}
+					return at
+				}
+				okShape := true
+				for _, i := range fast {
+					if hasLoop(paths[i]) != -1 {
+						okShape = false
+					}
+				}
+				var loop *LoopRec
+				for _, i := range slow {
+					li := hasLoop(paths[i])
+					if li < 0 {
+						okShape = false
+						break
+					}
+					if loop != nil && paths[i].Steps[li].Loop != loop {
+						okShape = false
+					}
+					loop = paths[i].Steps[li].Loop
+				}
+				if !okShape || loop == nil {
+					continue
+				}
+				orig := loop
+				loop = loopForSim(v, loop) // a range over a slice parameter: laid out as the counting loop it is
+				_ = orig
+				// sizes taken by the fast side
+				var sizes []int64
+				for _, n := range []int64{0, 1, 2, 3, 4, 5, 6, 7, 8, 9, 1 << 20} {
+					e := &termEnv{hook: func(u Term) (int64, bool) {
+						if isSize(u) {
+							return n, true
+						}
+						return 0, false
+					}}
+					g, ok := e.bool(G.T)
+					if !ok {
+						continue candidates
+					}
+					if g == G.Truth {
+						sizes = append(sizes, n)
+					}
+				}
+				if len(sizes) == 0 || len(sizes) > 3 || sizes[len(sizes)-1] > 4 {
+					continue
+				}
+				var pins []types.Object
+				if v.recv != nil {
+					pins = append(pins, v.recv)
+				}
+				if v.fd != nil && v.fd.Type.Params != nil {
+					for _, f := range v.fd.Type.Params.List {
+						for _, nm := range f.Names {
+							if o := c.Info.Defs[nm]; o != nil {
+								pins = append(pins, o)
+							}
+						}
+					}
+				}
+				sig := func(p *Path) string {
+					return c.pathSignature(p, func(t Term) (Term, bool) { return nil, false }, nil, pins...)
+				}
+				match := true
+				for _, n := range sizes {
+					hook := func(u Term) (int64, bool) {
+						if isSize(u) {
+							return n, true
+						}
+						return 0, false
+					}
+					holds := func(p *Path, from, to int) (bool, bool) { // the int-foldable decisions of p.Steps[from:to] hold for n
+						for k := from; k < to; k++ {
+							s := p.Steps[k]
+							if s.Kind != "cond" || !intFoldable(s.Cond.T) {
+								continue
+							}
+							e := &termEnv{hook: hook}
+							b, ok := e.bool(s.Cond.T)
+							if !ok {
+								return false, false
+							}
+							if b != s.Cond.Truth {
+								return false, true
+							}
+						}
+						return true, true
+					}
+					strip := func(steps []Step) []Step { // the decisions on the size are not part of what is compared
+						var out []Step
+						for _, s := range steps {
+							if s.Kind == "cond" && intFoldable(s.Cond.T) {
+								e := &termEnv{hook: hook}
+								if _, ok := e.bool(s.Cond.T); ok {
+									continue
+								}
+							}
+							out = append(out, s)
+						}
+						return out
+					}
+					want := map[string]int{}
+					for _, i := range fast {
+						p := paths[i]
+						h, ok := holds(p, gi+1, len(p.Steps))
+						if !ok {
+							continue candidates
+						}
+						if !h {
+							continue
+						}
+						q := &Path{Steps: strip(p.Steps[gi+1:]), End: p.End, Vals: p.Vals}
+						want[sig(q)]++
+					}
+					// the general side, laid out for this size
+					its, why := c.loopIterations(loop, hook, 8)
+					if why != "" || len(its) > 4 {
+						continue candidates
+					}
+					got := map[string]int{}
+					for _, i := range slow {
+						p := paths[i]
+						li := hasLoop(p)
+						if inLoopExit(p, li) {
+							continue // the same round is found among the loop's own
+						}
+						h, ok := holds(p, gi+1, len(p.Steps))
+						if !ok {
+							continue candidates
+						}
+						if !h {
+							continue
+						}
+						pre := strip(p.Steps[gi+1 : li])
+						post := strip(p.Steps[li+1:])
+						var lay func(j int, acc []Step) bool
+						lay = func(j int, acc []Step) bool {
+							sub := func(state map[types.Object]int64) func(Term) (Term, bool) {
+								return func(t Term) (Term, bool) {
+									switch x := t.(type) {
+									case TLoop:
+										if x.ID == loop.ID {
+											if val, ok := state[x.Obj]; ok {
+												return TConst{constant.MakeInt64(val)}, true
+											}
+										}
+									}
+									return nil, false
+								}
+							}
+							if j == len(its) {
+								final := map[types.Object]int64{}
+								if len(its) > 0 {
+									for o, val := range its[len(its)-1] {
+										final[o] = val
+									}
+								}
+								tail := mapPath(&Path{Steps: post, Vals: p.Vals}, sub(final))
+								q := &Path{Steps: append(append([]Step(nil), acc...), tail.Steps...), End: p.End, Vals: tail.Vals}
+								q = simplifyPath(q)
+								if mentionsLoop(q, loop.ID) {
+									return false
+								}
+								got[sig(q)]++
+								return true
+							}
+							for _, ip := range loop.Iter {
+								m := mapPath(ip, sub(its[j]))
+								steps := append(append([]Step(nil), acc...), strip(m.Steps)...)
+								switch ip.End {
+								case "fall", "continue":
+									// only counters may be carried
+									for o, t := range ip.Env {
+										if lv, same := t.(TLoop); same && lv.Obj == o {
+											continue
+										}
+										if _, isCtr := its[j][o]; isCtr {
+											continue
+										}
+										if _, carried := loop.Init[o]; carried {
+											return false
+										}
+									}
+									if !lay(j+1, steps) {
+										return false
+									}
+								case "return", "panic":
+									q := simplifyPath(&Path{Steps: steps, End: ip.End, Vals: m.Vals})
+									if mentionsLoop(q, loop.ID) {
+										return false
+									}
+									got[sig(q)]++
+								default:
+									return false
+								}
+							}
+							return true
+						}
+						if !lay(0, pre) {
+							continue candidates
+						}
+					}
+					if len(want) == 0 || len(want) != len(got) {
+						match = false
+					}
+					for k, cnt := range want {
+						if got[k] != cnt {
+							match = false
+						}
+					}
+					if !match {
+						if os.Getenv("ANYCHECK_DEBUG") != "" {
+							for k := range want {
+								fmt.Fprintln(os.Stderr, "N7 want:", k)
+							}
+							for k := range got {
+								fmt.Fprintln(os.Stderr, "N7 got: ", k)
+							}
+						}
+						break
+					}
+				}
+				if !match {
+					continue
+				}
+				var out []*Path
+				isFast := map[int]bool{}
+				isSlow := map[int]bool{}
+				for _, i := range fast {
+					isFast[i] = true
+				}
+				for _, i := range slow {
+					isSlow[i] = true
+				}
+				for i, p := range paths {
+					switch {
+					case isFast[i]:
+					case isSlow[i]:
+						q := clonePath(p)
+						q.Steps = append(q.Steps[:gi:gi], p.Steps[gi+1:]...)
+						out = append(out, q)
+					default:
+						out = append(out, p)
+					}
+				}
+				paths = out
+				changed = true
+				_ = fi
+				break candidates
+			}
+		}
+		if !changed {
+			break
+		}
+	}
+	return paths
+}
+
+// loopForSim: the loop as the header simulation wants it (a range over a slice parameter as the counting loop it is).
+func loopForSim(v *sxView, l *LoopRec) *LoopRec {
+	if cl := v.asCounted(l); cl != nil {
+		return cl
+	}
+	return l
+}
+
+func simplifyPath(p *Path) *Path {
+	return mapPath(p, func(t Term) (Term, bool) { return mapBU(t, simplify), true })
+}
+
+func mentionsLoop(p *Path, id int) bool {
+	hit := false
+	mapPath(p, func(t Term) (Term, bool) {
+		if lv, ok := t.(TLoop); ok && lv.ID == id {
+			hit = true
+		}
+		return nil, false
+	})
+	return hit
+}
+
+// mentionsLoopVar: t reads a variable of the loop with that identity.
+func mentionsLoopVar(t Term, id int) bool {
+	found := false
+	collectSubterms(t, func(u Term) {
+		if lv, ok := u.(TLoop); ok && lv.ID == id {
+			found = true
+		}
+	})
+	return found
+}
+
+type pvCtor struct {
+	typ types.Type
+	fn  *types.Func
+}
+
+var pvTableCache = map[*Ctx]*struct {
+	ctors []pvCtor
+	ident []types.Type
+}{}
+
+// parseValTable reads parseVal's own paths: the arms `case K: return newK(v)` (a constructor applied to the asserted argument, no
+// conversion in between) and the arms that hand the argument on as it is (`case List: return v`).
+func (c *Ctx) parseValTable() ([]pvCtor, []types.Type) {
+	if t, ok := pvTableCache[c]; ok {
+		return t.ctors, t.ident
+	}
+	t := &struct {
+		ctors []pvCtor
+		ident []types.Type
+	}{}
+	pvTableCache[c] = t
+	fd := c.Decl("parseVal")
+	if fd == nil {
+		return nil, nil
+	}
+	par := soleParam(c, fd)
+	for _, p := range c.NewSX().Run(fd) {
+		if p.Why != "" {
+			t.ctors, t.ident = nil, nil
+			return nil, nil
+		}
+		if p.End != "return" || len(p.Vals) != 1 || len(p.Effects()) != 0 {
+			continue
+		}
+		conds := p.Conds()
+		if len(conds) == 0 {
+			continue
+		}
+		last := conds[len(conds)-1]
+		ti, ok := last.T.(TTypeIs)
+		if ok && last.Truth && ti.To == nil && isParamTerm(ti.X, par) {
+			// case nil: return newNil()
+			if call, isCall := p.Vals[0].(TCall); isCall && call.Fun != nil && call.Recv == nil && len(call.Args) == 0 {
+				t.ctors = append(t.ctors, pvCtor{nil, call.Fun})
+			}
+			continue
+		}
+		if !ok || !last.Truth || ti.To == nil || !isParamTerm(ti.X, par) {
+			continue
+		}
+		// only arms of a switch with one type per case bind the asserted value
+		asserted := func(u Term) bool {
+			if pr, ok := u.(TProj); ok && pr.K == 0 {
+				u = pr.X
+			}
+			as, ok := u.(TAssert)
+			return ok && isParamTerm(as.X, par) && types.Identical(as.To, ti.To)
+		}
+		r := p.Vals[0]
+		for {
+			cv, ok := r.(TConv)
+			if !ok {
+				break
+			}
+			if _, isI := cv.To.Underlying().(*types.Interface); !isI {
+				break
+			}
+			r = cv.X
+		}
+		switch {
+		case asserted(r):
+			t.ident = append(t.ident, ti.To)
+		default:
+			if call, ok := r.(TCall); ok && call.Fun != nil && call.Recv == nil && len(call.Args) == 1 && asserted(call.Args[0]) {
+				t.ctors = append(t.ctors, pvCtor{ti.To, call.Fun})
+			}
+		}
+	}
+	return t.ctors, t.ident
+}
+
+// siblingMerge: two alternatives (paths of a function, or of one loop round) that differ in nothing but the outcome of one decision —
+// same steps before and after it, same effects, same end, same values left in the variables — are one alternative that does not make
+// the decision. (`if v == nil { out.Add(v) } else { out.Add(v) }` once the two conversions have been read as the same Add.)
+func (v *sxView) siblingMerge(paths []*Path) []*Path {
+	return v.siblingMergeMemo(paths, map[*LoopRec]*LoopRec{})
+}
+
+func (v *sxView) siblingMergeMemo(paths []*Path, memo map[*LoopRec]*LoopRec) []*Path {
+	var stepKey func(s Step) string
+	var pathKey func(p *Path, skip int) string
+	stepKey = func(s Step) string {
+		switch s.Kind {
+		case "cond":
+			return "if[" + boolStr(s.Cond.Truth) + "]" + key(s.Cond.T)
+		case "store":
+			return "store " + key(s.LHS) + "=" + key(s.RHS)
+		case "call":
+			if s.Call != nil {
+				return "call " + key(*s.Call)
+			}
+			if s.Blt != nil {
+				return "call " + key(*s.Blt)
+			}
+		case "loop":
+			if s.Loop != nil {
+				var ks []string
+				for _, ip := range s.Loop.Iter {
+					ks = append(ks, pathKey(ip, -1))
+				}
+				sort.Strings(ks)
+				return "loop" + itoa(s.Loop.ID) + "{" + strings.Join(ks, " | ") + "}"
+			}
+		}
+		return s.Kind + fmt.Sprintf("@%p", s.Node)
+	}
+	pathKey = func(p *Path, skip int) string {
+		var sb strings.Builder
+		for i, s := range p.Steps {
+			if i == skip {
+				continue
+			}
+			sb.WriteString(stepKey(s) + "; ")
+		}
+		sb.WriteString("=> " + p.End)
+		for _, t := range p.Vals {
+			sb.WriteString(" " + key(t))
+		}
+		var es []string
+		for o, t := range p.Env {
+			if lv, same := t.(TLoop); same && lv.Obj == o {
+				continue
+			}
+			es = append(es, fmt.Sprintf("%s@%d=%s", o.Name(), o.Pos(), key(t)))
+		}
+		sort.Strings(es)
+		sb.WriteString(" env{" + strings.Join(es, ",") + "}")
+		return sb.String()
+	}
+	// loops first
+	out := make([]*Path, len(paths))
+	for i, p := range paths {
+		q := p
+		for k, s := range p.Steps {
+			if s.Kind != "loop" || s.Loop == nil {
+				continue
+			}
+			nl, seen := memo[s.Loop]
+			if !seen {
+				nl = s.Loop
+				if it := v.siblingMergeMemo(s.Loop.Iter, memo); len(it) != len(s.Loop.Iter) {
+					l := *s.Loop
+					l.Iter = it
+					nl = &l
+				}
+				memo[s.Loop] = nl
+			}
+			if nl == s.Loop {
+				continue
+			}
+			if q == p {
+				q = clonePath(p)
+				q.Steps = append([]Step(nil), p.Steps...)
+			}
+			ns := s
+			ns.Loop = nl
+			q.Steps[k] = ns
+		}
+		out[i] = q
+	}
+	for again := true; again; {
+		again = false
+	search:
+		for i := 0; i < len(out); i++ {
+			for j := i + 1; j < len(out); j++ {
+				a, b := out[i], out[j]
+				if len(a.Steps) != len(b.Steps) || a.Why != "" || b.Why != "" {
+					continue
+				}
+				for k := range a.Steps {
+					sa, sb := a.Steps[k], b.Steps[k]
+					if sa.Kind != "cond" || sb.Kind != "cond" || sa.Cond.Truth == sb.Cond.Truth || !sameTerm(sa.Cond.T, sb.Cond.T) {
+						continue
+					}
+					if pathKey(a, k) != pathKey(b, k) {
+						continue
+					}
+					m := clonePath(a)
+					m.Steps = append(append([]Step(nil), a.Steps[:k]...), a.Steps[k+1:]...)
+					out[i] = m
+					out = append(out[:j], out[j+1:]...)
+					again = true
+					break search
+				}
+			}
 		}
 	}
 	return out
